@@ -125,7 +125,10 @@ def _s2s(h, pairing="PM-PM", seed=0):
     s1, s2 = pairing.split("-")
     if s1 == "F":
         # a sphere carried by a frame with prescribed (translating) motion: the contact geometry depends on t explicitly
-        a = lib.Motion(h, "fa", rotating=False, A0=np.eye(3)).frame(0.0, name="a")
+        from cardillo.discrete import Frame
+        va = h.vec("fa_v", 3)
+        ra0 = np.array([0.5, -0.25, 1.0])
+        a = Frame(r_OP=lambda t: ra0 + va * t, r_OP_t=lambda t: va + 0 * t, r_OP_tt=lambda t: 0 * va, name="a")
     else:
         a = lib.make_rb(rng, "a") if s1 == "RB" else lib.make_pm(rng, "a")
     b = lib.make_rb(rng, "b") if s2 == "RB" else lib.make_pm(rng, "b")
